@@ -35,9 +35,25 @@ REJECT = ("region-misaligned", "existing-smaller")
 def case_strategy(opts=None, max_ops=4):
     from hypothesis import strategies as st
 
+    fused = bool((opts or {}).get("fused_sources"))
+
     @st.composite
     def cases(draw):
-        prog = draw(P.programs(draw(st.sampled_from(["dag", "storage-rich"])), max_ops=max_ops, opts=opts))
+        prog = draw(P.programs(draw(st.sampled_from(["dag", "storage-rich"])) if not fused else "fusion-rich", max_ops=max_ops, min_ops=1 if fused else 0, opts=opts))
+        if fused:
+            # sources produced by fusable chains, stored into regions / existing targets / paths, under each fusing optimizer
+            return {
+                "kind": "program",
+                "prog": prog,
+                "sinks": draw(S.sinks_strategy(prog, classes=("region-aligned", "region-aligned", "region-aligned", "existing-same", "existing-diff", "fresh", "sharded"), max_sinks=2)),
+                "eager": draw(st.booleans()),
+                "together": draw(st.booleans()),
+                "one_call": draw(st.booleans()),
+                "executor": draw(st.sampled_from(["schedule", "single-threaded"])),
+                "optimize": True,
+                "optimizer": draw(st.sampled_from(["simple", "simple", "fuse-all", "default"])),
+                "perm_seed": draw(st.integers(0, 10**6)),
+            }
         return {
             "kind": "program",
             "prog": prog,
@@ -47,10 +63,21 @@ def case_strategy(opts=None, max_ops=4):
             "one_call": draw(st.booleans()),
             "executor": draw(st.sampled_from(["schedule", "schedule", "single-threaded", "threads"])),
             "optimize": draw(st.booleans()),
+            # "fused" sources: which optimizer fuses the operations producing the sources into the store operations
+            "optimizer": draw(st.sampled_from(["default", "default", "simple", "fuse-all"])),
             "perm_seed": draw(st.integers(0, 10**6)),
         }
 
     return cases()
+
+
+def _opt_kw(case):
+    kw = {"optimize_graph": case["optimize"]}
+    if case["optimize"] and case.get("optimizer", "default") != "default":
+        from cubed.core import optimization as opt
+
+        kw["optimize_function"] = opt.simple_optimize_dag if case["optimizer"] == "simple" else opt.fuse_all_optimize_dag
+    return kw
 
 
 def _executor(case):
@@ -66,7 +93,7 @@ def check_case(case) -> Outcome:
 
     prog = case["prog"]
     sinks = case["sinks"]
-    labels = {f"exec:{case['executor']}", "eager" if case["eager"] else "lazy", f"nsinks={len(sinks)}"}
+    labels = {f"exec:{case['executor']}", "eager" if case["eager"] else "lazy", f"nsinks={len(sinks)}", f"optimizer:{case.get('optimizer', 'default') if case['optimize'] else 'off'}"}
     for s in sinks:
         labels.add("sink:" + s["cls"])
         labels.add("api:" + s["api"])
@@ -93,15 +120,15 @@ def check_case(case) -> Outcome:
                 for s in sinks:
                     entered0 = ex.entered
                     lazy = S.build_sinks([s], arrs, ctx, spec, vals=vals)
-                    cubed.compute(*lazy, executor=ex, optimize_graph=case["optimize"], _return_in_memory_array=False)
+                    cubed.compute(*lazy, executor=ex, _return_in_memory_array=False, **_opt_kw(case))
             else:
                 lazy = S.build_sinks(sinks, arrs, ctx, spec, vals=vals, one_call=case.get("one_call", True))
                 if case["together"]:
-                    cubed.compute(*lazy, executor=ex, optimize_graph=case["optimize"], _return_in_memory_array=False)
+                    cubed.compute(*lazy, executor=ex, _return_in_memory_array=False, **_opt_kw(case))
                 else:
                     for a in lazy:
                         entered0 = ex.entered
-                        a.compute(executor=ex, optimize_graph=case["optimize"], _return_in_memory_array=False)
+                        a.compute(executor=ex, _return_in_memory_array=False, **_opt_kw(case))
         except Exception as e:
             rejected = e
     # the misaligned class may have become aligned after the shift (then it is an ordinary region store)
@@ -195,8 +222,10 @@ def _store_related(e):
 
 def shards(tier):
     if tier == "quick":
-        return [{"kind": "program", "name": f"s{i}", "n": 90, "rotate": 13 + i * 37} for i in range(7)]
-    return [{"kind": "program", "name": f"s{i}", "n": 1400, "rotate": 13 + i * 37} for i in range(16)]
+        return [{"kind": "program", "name": f"s{i}", "n": 90, "rotate": 13 + i * 37} for i in range(7)] + [
+            {"kind": "program", "name": f"fused{i}", "n": 90, "rotate": 3 + i * 47, "fused_sources": True} for i in range(2)]
+    return [{"kind": "program", "name": f"s{i}", "n": 1400, "rotate": 13 + i * 37} for i in range(16)] + [
+        {"kind": "program", "name": f"fused{i}", "n": 1400, "rotate": 3 + i * 47, "fused_sources": True} for i in range(4)]
 
 
 def run_shard(spec, seed, tier) -> Acc:
@@ -204,7 +233,13 @@ def run_shard(spec, seed, tier) -> Acc:
     if spec["kind"] == "__corpus__":
         return core.corpus_shard(sys.modules[__name__], acc)
     is_known, _ = core.known_matcher(ID)
-    core.hyp_run(case_strategy({"rotate": spec.get("rotate", 0), "special": False}), check_case, seed=seed, max_examples=spec["n"], acc=acc,
+    opts = {"rotate": spec.get("rotate", 0), "special": False}
+    if spec.get("fused_sources"):
+        from vp.ir import OPS
+
+        opts["fused_sources"] = True
+        opts["only_ops"] = sorted(n for n, o in OPS.items() if "elementwise" in o.tags and "helper-array" not in o.tags) + ["pick"]
+    core.hyp_run(case_strategy(opts), check_case, seed=seed, max_examples=spec["n"], acc=acc,
                  budget_s=420 if tier == "quick" else 3000, shrink=(tier == "thorough"), is_known=is_known)
     return acc
 
